@@ -75,6 +75,12 @@ let suite_risk (line : string) : string =
         let banks = Stdlib.List.mapi (fun i (hb : M.hbank) ->
           if i = b then { hb with M.hb_b = { hb.M.hb_b with M.b_op_state = st } } else hb) !w.M.hw_banks in
         w := { !w with M.hw_banks = banks }; "OK"
+      end else if op = 23 then begin
+        (* fixture: the bank's asset tag becomes `tag` (a bank of a third-party venue that already holds positions) *)
+        let b = ni t in let tg = nz t in
+        let banks = Stdlib.List.mapi (fun i (hb : M.hbank) ->
+          if i = b then { hb with M.hb_b = { hb.M.hb_b with M.b_asset_tag = tg } } else hb) !w.M.hw_banks in
+        w := { !w with M.hw_banks = banks }; "OK"
       end else begin
         let o : M.hop =
           match op with
